@@ -629,6 +629,9 @@ def c18(trace, V):
 
 
 # =========================================================================== C02
+TOL_FORMULATION = 5e-5
+
+
 def c02(trace, V):
     from . import reflp
 
@@ -649,11 +652,48 @@ def c02(trace, V):
                     "reference LP (code's meat rule) is not solvable where the code reports an optimum")
             continue
         tol = 5e-5 * max(1.0, abs(ref_c))
-        V.resid("optimum_is_true_optimum", abs(code - ref_c) / max(1.0, abs(ref_c)))
-        ok = V.check("optimum_is_true_optimum", abs(code - ref_c) <= tol, dict(idn, cause="formulation"),
-                     {"code_optimum": code, "reference_optimum": ref_c, "relative": (code - ref_c) / max(1.0, abs(ref_c)),
-                      "round": rec["index"] + 1},
-                     "reported optimum differs from the independently formulated LP (same meat rule)")
+        own = None
+        om = rec.get("own_model")
+        if om is not None:
+            # the code's OWN first-stage LP (exactly what it handed to the solver), solved by HiGHS: separates
+            # "the formulation deviates" from "CBC stopped a little short of the optimum of a right model"
+            from . import lpsolve
+
+            st_o, val_o, _x = lpsolve.solve_matrix(om["c"], om["A_ub"], om["b_ub"], om["A_eq"], om["b_eq"], om["bounds"],
+                                                   maximize=om["maximize"])
+            if st_o == "optimal":
+                own = val_o + om["c0"]
+            else:
+                trace.probe("c02_own_model_not_solved_by_highs")
+        if own is not None and abs(own - ref_c) > TOL_FORMULATION * max(1.0, abs(ref_c)):
+            # confirm before alarming: both LPs once more at feasibility tolerances of 1e-9 (two solves at 1e-7 of
+            # equivalent LPs with differently scaled rows differ by up to ~1e-5 relative on their own)
+            trace.probe("c02_formulation_confirmation_run")
+            with lpsolve.tolerance(1e-9):
+                st_o2, val_o2, _x = lpsolve.solve_matrix(om["c"], om["A_ub"], om["b_ub"], om["A_eq"], om["b_eq"], om["bounds"],
+                                                         maximize=om["maximize"])
+                st_c2, ref_c2 = reflp.build_and_solve(rec, meat="code")
+            if st_o2 == "optimal" and st_c2 == "optimal":
+                own, ref_c = val_o2 + om["c0"], ref_c2
+        if own is not None:
+            V.resid("formulation", abs(own - ref_c) / max(1.0, abs(ref_c)))
+            V.resid("solver_accuracy", abs(code - own) / max(1.0, abs(own)))
+            ok = V.check("optimum_is_true_optimum", abs(own - ref_c) <= TOL_FORMULATION * max(1.0, abs(ref_c)),
+                         dict(idn, cause="formulation"),
+                         {"code_optimum": code, "own_model_optimum": own, "reference_optimum": ref_c,
+                          "relative": (own - ref_c) / max(1.0, abs(ref_c)), "round": rec["index"] + 1},
+                         "the optimum of the LP the code hands to its solver differs from the independently formulated LP (same meat rule)")
+            ok = V.check("optimum_is_true_optimum", abs(code - own) <= 1e-4 * max(1.0, abs(own)),
+                         dict(idn, cause="solver_accuracy"),
+                         {"code_optimum": code, "own_model_optimum": own, "relative": (code - own) / max(1.0, abs(own)),
+                          "round": rec["index"] + 1},
+                         "the reported figure is not the optimum of the code's own LP to within 0.01 %") and ok
+        else:
+            V.resid("optimum_is_true_optimum", abs(code - ref_c) / max(1.0, abs(ref_c)))
+            ok = V.check("optimum_is_true_optimum", abs(code - ref_c) <= 1e-4 * max(1.0, abs(ref_c)), dict(idn, cause="formulation"),
+                         {"code_optimum": code, "reference_optimum": ref_c, "relative": (code - ref_c) / max(1.0, abs(ref_c)),
+                          "round": rec["index"] + 1},
+                         "reported optimum differs from the independently formulated LP (same meat rule)")
         if not ok:
             continue
         uses_meat_store = bool(rec["consts"]["ADD_MEAT"]) and idn["store"]
